@@ -292,6 +292,7 @@ func forgedMultiOffenders(rng *rand.Rand) []*Target {
 	}
 	if !skip["crl-entry-vary"] {
 		out = append(out, forgedCRLEntryVariants(c)...)
+		out = append(out, forgedCRLStripped(c)...)
 	}
 	return out
 }
@@ -365,6 +366,59 @@ func forgedCRLEntryVariants(c *corpus.Corpus) []*Target {
 			der := m.Bytes()
 			if crl, ok, _ := corpus.ParseCRL(der); ok {
 				out = append(out, &Target{Kind: "crl", ID: fmt.Sprintf("forged:crl-entry-vary%d:%s", vi, o.ID), DER: der, CRL: crl})
+			}
+		}
+	}
+	return out
+}
+
+// forgedCRLStripped: the optional parts of a TBSCertList (nextUpdate, revokedCertificates, crlExtensions) removed in every
+// combination - down to a list that ends right after thisUpdate.
+func forgedCRLStripped(c *corpus.Corpus) []*Target {
+	var out []*Target
+	for ci, o := range c.CRLs {
+		if ci%3 != 0 {
+			continue
+		}
+		root, err := forge.Parse(o.DER)
+		if err != nil || len(root.Children) != 3 {
+			continue
+		}
+		tbs := root.Children[0]
+		// positions of the optional members after thisUpdate
+		ti := -1
+		for i, ch := range tbs.Children {
+			if ch.Tag() == 0x17 || ch.Tag() == 0x18 {
+				ti = i
+				break
+			}
+		}
+		if ti < 0 {
+			continue
+		}
+		var opt []int
+		for i := ti + 1; i < len(tbs.Children); i++ {
+			opt = append(opt, i)
+		}
+		for mask := 1; mask < 1<<uint(len(opt)); mask++ {
+			m := root.Clone()
+			mt := m.Children[0]
+			var keep []*forge.Node
+			for i, ch := range mt.Children {
+				drop := false
+				for b, oi := range opt {
+					if oi == i && mask&(1<<uint(b)) != 0 {
+						drop = true
+					}
+				}
+				if !drop {
+					keep = append(keep, ch)
+				}
+			}
+			mt.Children = keep
+			der := m.Bytes()
+			if crl, ok, _ := corpus.ParseCRL(der); ok {
+				out = append(out, &Target{Kind: "crl", ID: fmt.Sprintf("forged:crl-strip%d:%s", mask, o.ID), DER: der, CRL: crl})
 			}
 		}
 	}
